@@ -2,6 +2,8 @@ import Enc.Model.Thrift
 import Enc.Spec.Thrift
 import Enc.Lemmas.ThriftSpec
 import Enc.Lemmas.ThriftAccept
+import Enc.Lemmas.ThriftDeltaStop
+import Enc.Lemmas.ThriftMessage
 /-!
 # C13 — thrift bytes follow the binary and compact protocol specifications
 Property theorems only. `Spec.Thrift` is the reference (written from the Apache specifications).
@@ -95,18 +97,87 @@ theorem encB_is_the_specification (s : Bool) (ty : Ty) (v : Val) :
 `Conf ty v bytes` is the SET of encodings the compact specification permits for a value: any varint representation up
 to 10 bytes (minimal or padded), list/set headers in short (< 15) or long form, the empty map as a varint 0, field
 headers in delta short form (when 0 < id − previous ≤ 15) or long form, struct fields in ANY order, optional fields
-holding their default present or absent, bool element and map key/value types announced as 1 or 2 — recursively. -/
+holding their default present or absent, bool element and map key/value types announced as 1 or 2 — recursively.
+
+Nesting depth: types nested deeper than maxDepth = 10000 containers (lists, sets, maps, structs: `Model.Thrift.nest ty`;
+pointers and named types do not count) are rejected by the decoder since the fix 9c8d6b4, whatever the encoding, hence
+the hypothesis `hd : nest ty ≤ Gen.c_thrift_maxDepth` of `accept_unmarshal`. It constrains the type only and is not part
+of `U` or `Conf`. -/
+
+/-- the depth hypothesis is satisfiable for nested types (`[]map[string]struct{ A []int32 }`: 4 containers) -/
+example : Model.Thrift.nest (.slice (.map .str (.struct (.cons "A" "thrift:\"1\"" false (.slice (.int .i32)) .nil))))
+    ≤ Gen.c_thrift_maxDepth := by decide
 
 open Lemmas.ThriftAccept in
 /-- **MAIN (second half).** Every specification-conformant compact encoding of a value of the universe
-(`U = ok ∧ RTS`) is accepted by `Unmarshal`, strict or not, with the same result as the canonical encoding. -/
-theorem accept_unmarshal (strict : Bool) (ty : Ty) (v : Val) (h : U ty v = true) (bs : Bytes) (hc : Conf ty v bs) :
+(`U = ok ∧ RTS`), of a type nested at most maxDepth containers deep, is accepted by `Unmarshal`, strict or not, with the
+same result as the canonical encoding. -/
+theorem accept_unmarshal (strict : Bool) (ty : Ty) (v : Val) (h : U ty v = true)
+    (hd : Model.Thrift.nest ty ≤ Gen.c_thrift_maxDepth) (bs : Bytes) (hc : Conf ty v bs) :
     Model.Thrift.unmarshal .compact strict ty bs = .ok (Lemmas.ThriftRoundTrip.norm ty v) :=
-  Lemmas.ThriftAccept.accept_unmarshal strict ty v h bs hc
+  Lemmas.ThriftAccept.accept_unmarshal strict ty v h hd bs hc
 
 open Lemmas.ThriftAccept in
 /-- the canonical encoding (= what Marshal writes) is a member of the set -/
 theorem conf_marshal (ty : Ty) (v : Val) (h : U ty v = true) : Conf ty v (Model.Thrift.marshal .compact ty v) :=
   Lemmas.ThriftAccept.conf_marshal ty v h
+
+/-! ## compact field headers: only the byte 0 is the stop field (fix 7d9da57; proofs in Enc/Lemmas/ThriftDeltaStop.lean) -/
+
+/-- the compact writer never produces a header byte 0x10 … 0xF0 (non-zero id delta with type nibble 0): every field of a
+real thrift type has a non-zero type nibble and the stop field is the byte 0 … -/
+theorem writer_never_delta_stop (t : TType) (id : Int) (dl : Bool) (ht : Lemmas.ThriftPrim.isReal t = true ∨ t = .stop) :
+    ∃ c rest, wField .compact t id dl = c :: rest ∧ ¬ Lemmas.ThriftDeltaStop.IsDeltaStop c :=
+  Lemmas.ThriftDeltaStop.wField_not_delta_stop t id dl ht
+
+/-- … and the reader rejects such a byte wherever a field header is expected (it is neither a field of a thrift type nor
+the stop field of the specification); conformant encodings (`Conf`) never contain one, so `accept_unmarshal` is
+unaffected -/
+theorem delta_stop_rejected (strict : Bool) (d fuel : Nat) (c : UInt8) (h : Lemmas.ThriftDeltaStop.IsDeltaStop c)
+    (rest : Bytes) (last : Int) (num : Nat) :
+    skipStruct .compact d (fuel + 1) (c :: rest) last num = .err "deltaStop" ∧
+    (∀ descs vs seen, decodeStruct .compact strict d (fuel + 1) descs (c :: rest) vs last num seen = .err "deltaStop") :=
+  ⟨Lemmas.ThriftDeltaStop.skipStruct_delta_stop d fuel c h rest last num,
+   fun descs vs seen => Lemmas.ThriftDeltaStop.decodeStruct_delta_stop strict d fuel descs c h rest vs last num seen⟩
+
+/-- the short form is chosen exactly for a Delta in 1 … 15 (fix 988f9bb): an absolute id ≤ 15 with `Delta = false`, a zero
+or a negative id go to the long form and are read back as themselves -/
+theorem long_form_reads_back (t : TType) (id : Int) (dl : Bool) (ht : Lemmas.ThriftPrim.isReal t = true)
+    (hsel : (dl && decide (0 < id) && decide (id ≤ 15)) = false) (hid : -2 ^ 15 ≤ id ∧ id < 2 ^ 15) (rest : Bytes) :
+    rField .compact (wField .compact t id dl ++ rest) = .ok ({ t := t, id := id, delta := false }, rest) :=
+  Lemmas.ThriftPrim.rField_wField_compact_long_gen t id dl ht hsel hid rest
+
+/-! ## message headers (fixes 6527322, 3d53304; proofs in Enc/Lemmas/ThriftMessage.lean) -/
+
+/-- **Compact message header, modulo the known finding `thrift-message-header`.** `WriteMessage` writes the protocol id
+0x82, ONE byte that is not the specified `(type << 5) | version` (the known finding: the bare type, no version bits), and
+then exactly what the specification prescribes: the sequence id as the varint of its 32-bit two's complement (the
+repaired rule: a negative id takes 5 bytes; before it was sign-extended to 64 bits, 10 bytes), the name length, the
+name. `k` is whatever message type the specification side is given: the tail does not depend on it. -/
+theorem compact_message_header_mod (mt k : Nat) (name : Bytes) (seq : Int) :
+    wMessage .compact mt name seq =
+      0x82 :: UInt8.ofNat (mt % 256) :: (Spec.Thrift.message .compact k name seq).drop 2 :=
+  Lemmas.ThriftMessage.wMessage_compact_tail mt k name seq
+
+/-- **The compact message header round-trips**, negative sequence ids included (`ReadMessage` accepts sequence id
+varints up to MaxUint32 and converts back to int32) -/
+theorem compact_message_roundtrip (mt : Nat) (hmt : mt < 256) (name : Bytes) (hn : name.length ≤ 2147483647)
+    (seq : Int) (hs : -2 ^ 31 ≤ seq ∧ seq < 2 ^ 31) (rest : Bytes) :
+    rMessage .compact (wMessage .compact mt name seq ++ rest) =
+      .ok ({ mtype := mt % 8, name := name, seq := seq }, rest) :=
+  Lemmas.ThriftMessage.rMessage_wMessage_compact mt hmt name hn seq hs rest
+
+/-- a sequence id varint above MaxUint32 is rejected -/
+theorem compact_seq_id_bound (b1 : UInt8) (n : Nat) (hn : 4294967295 < n) (hn64 : n < 2 ^ 64) (rest : Bytes) :
+    rMessage .compact (0x82 :: b1 :: (uvarint n ++ rest)) = .err "range" :=
+  Lemmas.ThriftMessage.rMessage_compact_seq_bound b1 n hn hn64 rest
+
+/-- binary strict header that ends right before the sequence id: an unexpected EOF (fix 3d53304; it was a plain EOF) -/
+theorem binary_message_cut_before_seq (s : Bool) (mt : Nat) (name : Bytes) (hn : name.length ≤ 2147483647) :
+    rMessage (.binary s) ([0x80, 0, 0, UInt8.ofNat (mt % 8)] ++ wBytes (.binary s) name) = .err "unexpectedEof" :=
+  Lemmas.ThriftMessage.rMessage_binary_cut_before_seq s mt name hn
+
+/-- non-vacuity: seq = -1 is written as the 5-byte varint ff ff ff ff 0f -/
+example : wMessage .compact 0 [] (-1) = [0x82, 0, 0xff, 0xff, 0xff, 0xff, 0x0f, 0] := by decide +kernel
 
 end Enc.Props.C13
